@@ -292,3 +292,7 @@ func SetParam(name string, v int) {
 	replay.Params[name] = v
 	mu.Unlock()
 }
+
+// SameSymbol reports whether two bytes are the very same symbolic value (engine) /
+// equal (natively).
+func SameSymbol(a, b byte) bool { return a == b }
